@@ -4,6 +4,7 @@
     unique. *)
 From Coq Require Import String Ascii List Bool NArith ZArith Lia.
 From CC Require Import Base.Str Asm.Lines M6502.Isa Asm.Operand Model.InlineRename Model.CbSpec Model.WfCode.
+From CC Require Import Model.Optimize Model.OptSpec.
 From CC Require Import Proofs.CbFacts.
 Import ListNotations.
 Open Scope string_scope.
@@ -187,6 +188,50 @@ Proof.
   intros n c H. rewrite rename_labels. apply NoDup_map_suffix. exact H.
 Qed.
 Print Assumptions rename_nodup.
+
+(** * Protection: the renaming keeps the [protected] flag of every instruction *)
+
+(** the renamed line of an instruction is an instruction with the same mnemonic, cycles, bytes
+    and [protected] flag; only the operand text of a branch/JMP changes *)
+Theorem rename_ins_shape : forall n i,
+  exists i', rename_line n (Ins i) = Ins i' /\
+             i_mn i' = i_mn i /\ i_prot i' = i_prot i /\
+             i_cycles i' = i_cycles i /\ i_alt i' = i_alt i /\ i_bytes i' = i_bytes i /\
+             i_op i' = if renames_operand (i_mn i) then suffix_of n (i_op i) else i_op i.
+Proof.
+  intros n i. cbn [rename_line]. destruct (renames_operand (i_mn i)) eqn:Em.
+  - eexists. split; [reflexivity|]. cbn [i_mn i_prot i_cycles i_alt i_bytes i_op].
+    repeat split; reflexivity.
+  - exists i. repeat split; reflexivity.
+Qed.
+Print Assumptions rename_ins_shape.
+
+Theorem rename_is_marked : forall n l, is_marked (rename_line n l) = is_marked l.
+Proof.
+  intros n l. destruct l as [y|i|tx sz|cm|]; cbn [rename_line is_marked]; try reflexivity.
+  destruct (renames_operand (i_mn i)); reflexivity.
+Qed.
+Print Assumptions rename_is_marked.
+
+(** inlining neither removes, duplicates nor reorders protected instructions and inline
+    assembly: the marked lines of the renamed body are the renamed marked lines of the body *)
+Theorem rename_marked : forall n c,
+  marked (map (rename_line n) c) = map (rename_line n) (marked c).
+Proof.
+  intros n c. unfold marked. induction c as [|x c IH]; [reflexivity|].
+  cbn [map filter]. rewrite rename_is_marked, IH.
+  destruct (is_marked x); reflexivity.
+Qed.
+Print Assumptions rename_marked.
+
+Theorem push_code_marked : forall dst body n,
+  marked (push_code dst body n) = marked dst ++ map (rename_line n) (marked body).
+Proof.
+  intros dst body n. unfold push_code, append_code, marked.
+  rewrite !filter_app. fold (marked (map (rename_line n) body)). rewrite rename_marked.
+  cbn [filter is_marked]. rewrite app_nil_r. reflexivity.
+Qed.
+Print Assumptions push_code_marked.
 
 (** * The inlined block *)
 
